@@ -378,9 +378,11 @@ def check_ndarray(ctx, r, lines, expect, meta):
     if dt == 'bool':
         vals = [r.randint(0, 1) for _ in range(cnt)]
     elif dt.startswith('uint'):
-        vals = [r.randint(0, 200) for _ in range(cnt)]
+        bits = 8 * np.dtype(dt).itemsize
+        vals = [r.choice([r.randint(0, 200), 2 ** bits - 1, r.randint(0, 2 ** bits - 1)]) for _ in range(cnt)]
     elif dt.startswith('int'):
-        vals = [r.randint(-100, 100) for _ in range(cnt)]
+        bits = 8 * np.dtype(dt).itemsize
+        vals = [r.choice([r.randint(-100, 100), -2 ** (bits - 1), 2 ** (bits - 1) - 1, -1, r.randint(-2 ** (bits - 1), 2 ** (bits - 1) - 1)]) for _ in range(cnt)]
     else:
         vals = [r.choice([0.0, 1.0, -2.0, 3.5, -0.125, 100.0, 2.75]) for _ in range(cnt)]
     layout = (r.choice(['', '', '.T', '[::-1]', ".copy(order='F')", '[:, ::-1]', '[::2]']) if len(shape) == 2 else
@@ -405,6 +407,14 @@ def check_ndarray(ctx, r, lines, expect, meta):
             ctx.fail('property', 'serialize_ndarray', f'{dt} {"bytes" if ub else "json"}', f'{a!r} came back as {b!r}',
                      repro='import numpy as np, json\nfrom dimod.serialization.utils import serialize_ndarray, deserialize_ndarray\n' + src +
                      f'\nd = serialize_ndarray(a, use_bytes={ub})\nb = deserialize_ndarray(d if {ub} else json.loads(json.dumps(d)))\nassert b.dtype == a.dtype and b.shape == a.shape and (a == b).all(), b', detail=dict(source=src))
+        if ub and not dt.startswith('float'):
+            # the bytes payload against the model (integer-like dtypes; IEEE payloads are opaque to the model)
+            sz = a.dtype.itemsize; sg = int(dt.startswith('int'))
+            flat = [int(x) for x in a.ravel().tolist()]
+            lines.append(f"tobytes {sz} {sg} " + (','.join(map(str, flat)) or '-'))
+            expect.append('ok ' + (','.join(str(b) for b in doc['data']) or '-')); meta.append(('serialize_ndarray bytes', src))
+            lines.append(f"frombytes {sz} {sg} {len(flat)} " + (','.join(str(b) for b in doc['data']) or '-'))
+            expect.append('ok ' + (','.join(str(int(x)) for x in b.ravel().tolist()) or '-')); meta.append(('deserialize_ndarray bytes', src))
         if not ub:
             cls = 'b' if dt == 'bool' else 'f' if dt.startswith('float') else 'i'
             lines.append(f'serarr {cls} ' + (','.join(map(str, a.shape)) or '-') + ' ' + ratl(a.ravel().tolist()))
